@@ -19,29 +19,44 @@ TReset == /\ IsOp("reset")
           /\ st' = "fresh" /\ evlen' = 0 /\ buf' = <<>> /\ disk' = <<>> /\ dbytes' = 0
           /\ now' = 1 /\ emitted' = <<>> /\ nflush' = 0 /\ nested' = FALSE /\ calls' = 0
 
-\* logged observation: file size after the call = bytes written by the model
-Obs == dbytes' = Log[l].fsize
-
-TThreadInit == IsOp("thread_init") /\ ThreadInit /\ Obs
+\* The implementation layer (when exactly the buffer is flushed, hence the file
+\* size after each call and the position of the markers) is NOT demanded of the
+\* code: a different but valid flush policy satisfies C01/C02.  The recorded
+\* calls drive the model only to know WHAT was handed to the library; the
+\* stream decoded from disk is judged by the property layer alone.
+TThreadInit == IsOp("thread_init") /\ ThreadInit /\ Log[l].fsize = StreamHdr   \* header written, nothing else
 TEmit  == IsOp("emit")  /\ Log[l].pay \in LegalPay /\ Emit(Log[l].pay, Log[l].kind)
-                        /\ emitted'[Len(emitted')] = Log[l].id /\ Obs
-TJumbo == IsOp("jumbo") /\ EmitJumbo(Log[l].n) /\ emitted'[Len(emitted')] = Log[l].id /\ Obs
-TFlush == IsOp("flush") /\ Flush /\ Obs
-TFree  == IsOp("free")  /\ Free /\ Obs
+                        /\ emitted'[Len(emitted')] = Log[l].id
+TJumbo == IsOp("jumbo") /\ EmitJumbo(Log[l].n) /\ emitted'[Len(emitted')] = Log[l].id
+TFlush == IsOp("flush") /\ Flush
+TFree  == IsOp("free")  /\ Free
 
-\* the stream decoded from disk by the independent decoder
-Same(o, e) == o.k = e.k /\ o.sz = e.sz /\ (IsUser(e) => o.id = e.id)
+\* everything the thread handed over, with the size each event must have on disk
+Handed == SelectSeq(disk \o buf, IsUser)
+
+\* the stream decoded from disk by the independent decoder, after flush + free
+ObsUser(s) == SelectSeq(s, LAMBDA e : e.k \in {"u", "j", "m"})
 ObsMonotone(s) == \A i \in 1..(Len(s) - 1) : s[i].clk <= s[i + 1].clk
 ObsPaired(s) == LET m == SelectSeq(s, LAMBDA e : e.k \in {"b", "e"}) IN
                 /\ Len(m) % 2 = 0
                 /\ \A i \in 1..Len(m) : m[i].k = (IF i % 2 = 1 THEN "b" ELSE "e")
+ObsSum(s) == LET RECURSIVE Sum(_)
+                 Sum(i) == IF i = 0 THEN 0 ELSE s[i].sz + Sum(i - 1)
+             IN  Sum(Len(s))
 TFinal == /\ IsOp("final")
-          /\ LET s == Log[l].stream IN
-             /\ Len(s) = Len(disk)
-             /\ \A i \in 1..Len(s) : Same(s[i], disk[i])
+          /\ LET s == Log[l].stream
+                 u == ObsUser(s)
+                 h == SelectSeq(disk, IsUser)      \* model: what is on disk after the last flush
+             IN
+             \* C01 fidelity: exactly the events handed over before the last flush, once, in order,
+             \* with their kind and size; nothing else but flush markers
+             /\ Len(u) = Len(h)
+             /\ \A i \in 1..Len(u) : u[i].id = h[i].id /\ u[i].k = h[i].k /\ u[i].sz = h[i].sz
+             /\ \A i \in 1..Len(s) : s[i].k \in {"u", "j", "m", "b", "e"}
+             \* C02 validity: tiling, monotone clocks, paired non-nested markers
+             /\ Log[l].fsize = StreamHdr + ObsSum(s)
              /\ ObsMonotone(s)
              /\ ObsPaired(s)
-             /\ Log[l].fsize = dbytes
           /\ UNCHANGED vars
 
 \* ovni_ev_jumbo_emit refuses (die) a jumbo that can never fit the buffer
